@@ -662,6 +662,46 @@ theorem toStr_congr {R : BPoly.Ring α} (hR : R.F = F) (f : BPoly α) :
 end Par
 end B
 
+/-! ### bivariate interpolation (value level) -/
+namespace B
+section Interp
+variable {α : Type} {F F' : FOps α} {V : α → Prop} (hA : OpsAgree F F' V) (hC : Closed F V)
+include hA hC
+
+theorem lagrangeBasis_par (h1 : V (F.ofNat 1)) {points : List α} (hp : AllV V points) {ignore : α}
+    (hi : V ignore) (v : Nat) :
+    BPoly.lagrangeBasis F' points ignore v = BPoly.lagrangeBasis F points ignore v ∧
+      AllM V (BPoly.lagrangeBasis F points ignore v) := by
+  unfold BPoly.lagrangeBasis
+  rw [ignoreIndex_congr hA, hA.one]
+  obtain ⟨e1, hv1⟩ := foldl_par (AllM V) (fun _ : Nat => True)
+    (fun f k => BPoly.setCoef F f (if v = 0 then (k, 0) else (0, k))
+      (UPoly.coefK F points (UPoly.ignoreIndex F points ignore) k))
+    (fun f k => BPoly.setCoef F' f (if v = 0 then (k, 0) else (0, k))
+      (UPoly.coefK F' points (UPoly.ignoreIndex F points ignore) k))
+    (fun f k hf _ => by
+      obtain ⟨e, hv⟩ := coefK_par hA hC h1 hp (UPoly.ignoreIndex F points ignore) k
+      rw [e]
+      exact setCoef_par hA hf _ hv)
+    (List.range points.length) [] (fun _ _ => trivial) nil_V
+  obtain ⟨e2, hv2⟩ := foldl_par V (fun x : α × Nat => V x.1)
+    (fun d (x : α × Nat) => if x.2 = UPoly.ignoreIndex F points ignore then d else F.mul d (F.sub ignore x.1))
+    (fun d (x : α × Nat) => if x.2 = UPoly.ignoreIndex F points ignore then d else F'.mul d (F'.sub ignore x.1))
+    (fun d x hd hx => by
+      split
+      · exact ⟨rfl, hd⟩
+      · rw [hA.sub _ _ hi hx, hA.mul _ _ hd (hC.sub _ _ hi hx)]
+        exact ⟨rfl, hC.mul _ _ hd (hC.sub _ _ hi hx)⟩)
+    points.zipIdx F.one (fun x hx => hp _ (List.fst_mem_of_mem_zipIdx hx)) hC.one
+  simp only [] at e1 e2 ⊢
+  rw [e1, e2, hA.inv _ hv2]
+  cases hinv : F.inv _ with
+  | none => exact ⟨rfl, nil_V⟩
+  | some i => exact scale_par hA hC hv1 (hC.inv _ i hv2 hinv)
+
+end Interp
+end B
+
 /-! ## `step` on the bivariate arithmetic operations -/
 section StepB
 variable {α : Type} {env env' : Env α} {V : Nat → α → Prop}
